@@ -52,4 +52,23 @@ CHECKS = {
         'level': 'Sampled search plus a fixed hostile list run against every template; exact textual oracle.',
         'note': 'Trusts the 150-line literal-aware scanner (self-tested). Only the mindsdb dialect has these commands.',
     },
+    'C04': {
+        'technique': 'property-based testing against a reference model + bounded-exhaustive enumeration: literal / '
+                     'identifier / number / @variable texts assembled from lexical units (decode) and values placed in '
+                     'trees (encode), judged by an independent reference reader of the three dialects\' token shapes',
+        'level': 'Exhaustive over all literal texts up to 3 (quick) / 5 (thorough) units of a hostile unit alphabet '
+                 'and all values up to 3 / 5 characters; random Unicode beyond. Exact oracle where the token shape '
+                 'fixes the denotation, open (all readings accepted) for unspecified backslash escapes.',
+        'note': 'Trusts vf/oracles/reflex.py (reference denotation written from the lexers\' regexes, self-tested); '
+                'its one debatable reading (two backslashes denote one) is argued in DESIGN.md.',
+    },
+    'C11': {
+        'technique': 'property-based differential execution + structural invariant: single-integration queries from '
+                     'the typed SQL model (qualifier spellings, shadowing aliases, 3-part columns, CTEs, set operations, '
+                     'sub-selects) x table contents x catalog shapes; plan must be one fetch step, pushed query '
+                     '(printed by an own printer) executed on sqlite3 vs the original text on an engine with the '
+                     'integration ATTACH-ed; pushed tree may differ only by qualifier removal / AS <column>',
+        'level': 'Sampled search with the real SQLite engine as reference and an exact structural edit-distance check.',
+        'note': 'Trusts sqlite3, the own printer vf/oracles/refprint.py and the generator\'s typing discipline.',
+    },
 }
